@@ -10,6 +10,9 @@ Local Open Scope Qc_scope.
 Lemma qcl_eqb_eq x y : qcl_eqb x y = true <-> x = y.
 Proof. apply list_eqb_spec. apply qc_eqb_eq. Qed.
 
+Lemma qcll_eqb_eq x y : qcll_eqb x y = true <-> x = y.
+Proof. apply list_eqb_spec. apply qcl_eqb_eq. Qed.
+
 Lemma natl_eqb_eq x y : natl_eqb x y = true <-> x = y.
 Proof. apply list_eqb_spec. intros; apply Nat.eqb_eq. Qed.
 
@@ -27,12 +30,14 @@ Proof. destruct a, b; simpl; split; intros H; try reflexivity; try discriminate.
 
 Lemma conv_eqb_eq a b : conv_eqb a b = true <-> a = b.
 Proof.
-  destruct a as [|r c|r c|n i p sq], b as [|r' c'|r' c'|n' i' p' sq']; simpl; split; intros H;
+  destruct a as [|r c|r c|K M|n i p sq], b as [|r' c'|r' c'|K' M'|n' i' p' sq']; simpl; split; intros H;
     try reflexivity; try discriminate.
   - apply andb_true_iff in H as [H1 H2]. apply Nat.eqb_eq in H1, H2. congruence.
   - inversion H; subst. rewrite !Nat.eqb_refl. reflexivity.
   - apply andb_true_iff in H as [H1 H2]. apply Nat.eqb_eq in H1, H2. congruence.
   - inversion H; subst. rewrite !Nat.eqb_refl. reflexivity.
+  - apply andb_true_iff in H as [H1 H2]. apply qcll_eqb_eq in H1, H2. congruence.
+  - inversion H; subst. apply andb_true_iff; split; apply qcll_eqb_eq; reflexivity.
   - apply andb_true_iff in H as [H123 H4]. apply andb_true_iff in H123 as [H12 H3]. apply andb_true_iff in H12 as [H1 H2].
     apply Nat.eqb_eq in H1. apply natll_eqb_eq in H2. apply proj_eqb_eq in H3. apply Bool.eqb_prop in H4. congruence.
   - inversion H; subst. rewrite Nat.eqb_refl, Bool.eqb_reflx, andb_true_r. simpl.
